@@ -27,6 +27,10 @@ type PlanC12 struct {
 	ReadLimit     int       `json:"read_limit,omitempty"` // configured on both transports (0 = default 8 MiB); every envelope of the run is smaller than it
 	SendGapMs     int       `json:"send_gap_ms"`          // pause between sends
 	Family        string    `json:"family"`
+	// CloseAtOnce: the sender closes its transport right behind its last successful Send instead of
+	// waiting for the receiver: the end of the stream (FIN, under TLS the close_notify alert) then
+	// travels merged with the last envelopes, which are still owed to the receiver
+	CloseAtOnce bool `json:"close_at_once,omitempty"`
 }
 
 func genC12(t *simrt.Tape, tier string) interface{} {
@@ -83,6 +87,7 @@ func genC12(t *simrt.Tape, tier string) interface{} {
 		}
 	}
 	p.Trace = t.Draw(6) == 0
+	p.CloseAtOnce = t.Draw(3) == 0
 	if t.Draw(4) == 0 {
 		// a small read limit that no single envelope reaches, but the stream as a whole exceeds many times
 		big := 0
@@ -332,7 +337,7 @@ func runC12(w *World, pi interface{}) {
 			}
 		}
 		// let the receiver drain what was sent, then close so that it sees the end of the stream
-		if len(sends) == len(envs) && sends[len(sends)-1].err == nil {
+		if len(sends) == len(envs) && sends[len(sends)-1].err == nil && !p.CloseAtOnce {
 			if !recvDone.WaitFor(150 * time.Minute) {
 				w.Count("receiver-slow")
 			}
@@ -427,6 +432,10 @@ func runC12(w *World, pi interface{}) {
 		}
 		if sends[j].err == nil {
 			gotOK++
+		} else {
+			// the receiver yields the envelopes the sender reported as sent: one whose Send reported an
+			// error never went out whole (nothing was written, or the write was cut inside it)
+			w.Violate("C12.received-although-send-failed", "intact", "envelope #%d was received intact although its Send had returned an error (%v); %d envelopes received, sends: %d attempted", j, sends[j].err, len(received), len(sends))
 		}
 		pos = j + 1
 	}
